@@ -2268,7 +2268,10 @@ class CreateIndexBuilder:
         unique_str = "UNIQUE" if self._is_unique else ""
         if_not_exists_str = "IF NOT EXISTS" if self._if_not_exists else ""
         head = " ".join(part for part in ("CREATE", unique_str, "INDEX", if_not_exists_str) if part)
-        base_sql = f"{head} {self._index} ON {self._table}({columns_str})"
+        # a name given as str is quoted like the name of an Index / Table object (whose __str__ quotes with ")
+        index_str = self._index if isinstance(self._index, Index) else format_quotes(self._index, '"')
+        table_str = self._table if isinstance(self._table, Table) else format_quotes(self._table, '"')
+        base_sql = f"{head} {index_str} ON {table_str}({columns_str})"
         if self._wheres:
             base_sql += f" WHERE {self._wheres}"
         return base_sql
